@@ -524,13 +524,6 @@ func init() {
 			name += "-kill-" + v
 		}
 		tb := 2
-		if v == "w1" || v == "free" {
-			// at bound 2 these two run into a replay divergence (a schedule prefix that cannot be followed a second
-			// time, which the explorer treats as a hard error and never as a verdict); its source - something in
-			// Node.Stop that the scheduler does not own - was not found, so the thorough tier stays at the bound
-			// that has always replayed faithfully (DESIGN 7.5)
-			tb = 1
-		}
 		c10Scenario(name, 1, tb, func(w *World, t *tree) {
 			f := t.sup("S", act.SupervisorTypeOneForOne, "w1", "w2")
 			w.Setup("start", func() {
